@@ -288,13 +288,19 @@ func writeEvidence(verif string, def *propDef, c *Ctx, p *Program, tier string, 
 	cov["samples"] = samples
 	cov["trusted_base"] = []string{"go/types + go/ssa (x/tools v0.29.0) model of the source", "rule tables in /verif/sacheck/rules_*.go", "/verif/known-findings.txt"}
 	if mres != nil {
-		killed := 0
+		killed, silent, equiv := 0, 0, 0
 		for _, m := range mres {
 			if m.Status == "killed" {
 				killed++
 			}
+			if m.Status == "silent" {
+				silent++
+			}
+			if len(m.Expect) == 1 && m.Expect[0] == "NONE" {
+				equiv++
+			}
 		}
-		cov["selftest"] = map[string]interface{}{"mutants": len(mres), "killed": killed, "results": mres,
+		cov["selftest"] = map[string]interface{}{"mutants": len(mres) - equiv, "killed": killed, "equivalent_variants": equiv, "equivalent_variants_silent": silent, "results": mres,
 			"note": "in-memory source mutants (go/packages overlay); outcome is informational and never changes the exit status"}
 	}
 	ev := map[string]interface{}{
@@ -386,6 +392,16 @@ func runOneMutant(self string, def *propDef, repo, verif string, m mutant) mutan
 	case "skipped", "error":
 		r.Status, r.Detail = child.Status, child.Detail
 	default:
+		if len(m.Expect) == 1 && m.Expect[0] == "NONE" {
+			// behaviour-preserving variant: the check must stay silent
+			if len(child.Violated) == 0 {
+				r.Status = "silent"
+			} else {
+				r.Status = "false-alarm"
+				r.Detail = fmt.Sprintf("violations reported on a behaviour-preserving variant: %v", child.Violated)
+			}
+			return r
+		}
 		for _, k := range child.Violated {
 			match := len(m.Expect) == 0
 			for _, e := range m.Expect {
